@@ -1,0 +1,31 @@
+//go:build verif
+
+// Contracts for package super, checked by /verif/govc (comment-only file).
+package super
+
+//@ specfunc superInv(fs *FsSuper) = fs != nil && fs.Size == dsksize && fs.Maxaddr == dsksize && fs.nLog == 513 && fs.NBlockBitmap == dsksize/32768 + 1 && fs.NInodeBitmap == 1 && fs.nInodeBlk == 1024
+
+// "accepted size" is defined by the code: markAlloc does not panic iff this holds (G2, proved in nfs).
+//@ specfunc acceptedSize(sz uint64) = sz/32768 < 31229 && sz >= 1539 + sz/32768
+
+//@ spec MkFsSuper
+//@   props C15
+//@   requires d.tag != 0
+//@   ensures [G1-fields] fresh(result) && superInv(result) @C15 @C04
+//@   ensures [G1-starts] result.BitmapBlockStart() == 513 && result.BitmapInodeStart() == 514 + dsksize/32768 && result.InodeStart() == 515 + dsksize/32768 && result.DataStart() == 1539 + dsksize/32768 @C15
+//@   ensures [G1-ninode] result.NInode() == 32768 && result.NInode() == result.NInodeBitmap * 32768 @C15
+//@   ensures [G1-covers] acceptedSize(dsksize) ==> result.NBlockBitmap * 32768 > dsksize && result.MaxBnum() == dsksize @C15
+
+//@ prove layout(fs *FsSuper)
+//@   props C15 C04
+//@   requires superInv(fs) && acceptedSize(dsksize)
+//@   ensures [G1-order] 0 < fs.BitmapBlockStart() && fs.BitmapBlockStart() < fs.BitmapInodeStart() && fs.BitmapInodeStart() < fs.InodeStart() && fs.InodeStart() < fs.DataStart() && fs.DataStart() <= fs.MaxBnum()
+//@   ensures [G1-adjacent] fs.BitmapBlockStart() + fs.NBlockBitmap == fs.BitmapInodeStart() && fs.BitmapInodeStart() + fs.NInodeBitmap == fs.InodeStart() && fs.InodeStart() + 1024 == fs.DataStart()
+//@   ensures [G1-inside] fs.MaxBnum() == dsksize && fs.DataStart() < 32768
+//@   ensures [G1-bitmapcovers] fs.NBlockBitmap * 32768 > dsksize && (fs.NBlockBitmap - 1) * 32768 <= dsksize
+
+//@ prove inum2addr(fs *FsSuper, inum uint64)
+//@   props C15 C04
+//@   requires superInv(fs) && acceptedSize(dsksize) && inum < fs.NInode()
+//@   ensures [G1-inodeaddr] fs.Inum2Addr(inum).Blkno >= fs.InodeStart() && fs.Inum2Addr(inum).Blkno < fs.DataStart() && fs.Inum2Addr(inum).Off % 1024 == 0 && fs.Inum2Addr(inum).Off + 1024 <= 32768
+//@   ensures [G1-inodeaddr-inj] forall j uint64 :: j < fs.NInode() && j != inum ==> fs.Inum2Addr(j).Blkno != fs.Inum2Addr(inum).Blkno || fs.Inum2Addr(j).Off != fs.Inum2Addr(inum).Off
